@@ -387,6 +387,8 @@ impl KeyValueStore {
         };
         #[cfg(rescrv_blue_verif)]
         crate::verif::yield_point("write:seq-assigned");
+        #[cfg(rescrv_blue_verif)]
+        self.tree.verif().stall_point("write:seq-assigned");
         let mut log_batch = sst::log::WriteBatch::default();
         for entry in batch.entries.iter() {
             log_batch.insert(KeyValueRef::from(entry))?;
@@ -394,9 +396,13 @@ impl KeyValueStore {
         self.poison(log.append(log_batch))?;
         #[cfg(rescrv_blue_verif)]
         crate::verif::yield_point("write:log-appended");
+        #[cfg(rescrv_blue_verif)]
+        self.tree.verif().stall_point("write:log-appended");
         self.poison(memtable.write(&mut batch))?;
         #[cfg(rescrv_blue_verif)]
         crate::verif::yield_point("write:memtable-inserted");
+        #[cfg(rescrv_blue_verif)]
+        self.tree.verif().stall_point("write:memtable-inserted");
         drop(memtable);
         drop(log);
         let mut state = self.state.lock().unwrap();
